@@ -42,7 +42,7 @@ Proof. vm_compute. reflexivity. Qed.
    value — it neither raises nor runs out of fuel — with fuel len(data) + 3 (one unit per loop iteration / call): work proportional to
    the buffer whatever the bytes, and the result is spelled out (the successive 16- / 8-byte pieces of the announced part). *)
 From Coq Require Import ZArith List.
-From PS Require Import Model.Py Proofs.PyLemmas Proofs.PyParsers Proofs.PyTotal Gen.Tables Gen.PyFuncs.
+From PS Require Import Model.Py Proofs.PyLemmas Proofs.PyParsers Proofs.PyTotal Proofs.PyTotal2 Gen.Tables Gen.PyFuncs.
 Import ListNotations.
 
 Theorem C11_py_getlbastatus_every_input : forall (data : bytes) f, (length data + 3 <= f)%nat ->
@@ -67,6 +67,34 @@ Theorem C11_py_readcapacity_every_input : forall (data : bytes) f, (1 <= f)%nat 
   call_fun all_tables py_program f "scsi_cdb_readcapacity10.ReadCapacity10.unmarshall_datain" [PBytes data] = Ok (PDict (dict_of_decoded (decode_total data T_rc10))) /\
   call_fun all_tables py_program f "scsi_cdb_readcapacity16.ReadCapacity16.unmarshall_datain" [PBytes data] = Ok (PDict (dict_of_decoded (decode_total data T_rc16))).
 Proof. intros data f Hf. split; [now apply readcapacity10_total|now apply readcapacity16_total]. Qed.
+
+(* descriptors that carry their own length: the stride of the loop is read from the buffer.  REPORT PRIORITY: whatever ADDITIONAL LENGTH
+   says (zero, or past the end), each iteration consumes at least the 8 fixed bytes; the result is spelled out from the successive
+   remainders of the announced part *)
+Theorem C11_py_reportpriority_every_input : forall (data : bytes) f, (length data + 3 <= f)%nat ->
+  let announced := py_slice data (Some 4%Z) (Some (Z.of_N (ba_to_int (py_slice data None (Some 4%Z))) + 4)%Z) in
+  call_fun all_tables py_program f RPRI [PBytes data] =
+  Ok (PDict [("priority_descriptors", PList (map rp_desc (rp_suffixes (length announced) announced)))]).
+Proof. exact reportpriority_total. Qed.
+
+(* REPORT TARGET PORT GROUPS: two nested loops, the inner one bounded by a count read from the buffer AND by the bytes that remain; on
+   every byte string the decoder returns, within 2 len + 4 units of fuel, the header fields and one entry per group remainder *)
+Theorem C11_py_rtpg_every_input : forall (data : bytes) f, (2 * length data + 4 <= f)%nat ->
+  let announced := py_slice data (Some 4%Z) (Some (Z.of_N (ba_to_int (py_slice data None (Some 4%Z))) + 4)%Z) in
+  let body := snd (rtpg_header announced) in
+  call_fun all_tables py_program f RTPG [PBytes data] =
+  Ok (PDict (fst (rtpg_header announced) ++ [("target_port_group_descriptors", PList (map tg_desc (tg_suffixes (length body) body)))])%list).
+Proof. exact rtpg_total. Qed.
+
+(* the number of entries is bounded by the buffer: no amplification *)
+Theorem C11_py_rtpg_linear : forall (body : bytes),
+  (length (tg_suffixes (length body) body) <= length body)%nat /\
+  forall R, (length (tg_ports R) <= length R)%nat.
+Proof.
+  intros body. split; [apply tg_suffixes_length|]. intros R. unfold tg_ports.
+  pose proof (port_suffixes_length (Z.to_nat (tg_count R)) (skipn 8 R)) as H. rewrite skipn_length in H.
+  eapply Nat.le_trans; [exact H|]. apply Nat.le_sub_l.
+Qed.
 
 (* in particular: never the exception of a loop that does not end, for any bytes *)
 Theorem C11_py_no_divergence : forall (data : bytes),
